@@ -320,6 +320,10 @@ class JSONVisitor:
             directive = self.handle_directive(node, line)
             if directive:
                 self.state.append(directive)
+            else:
+                # Nothing was pushed for this directive (".. todo::"), so nothing may be
+                # popped for it either: skip its children and its departure.
+                raise tinydocutils.nodes.SkipNode()
         elif isinstance(node, tinydocutils.nodes.Text):
             # docutils will inject \0000 characters into text nodes when there are escape characters
             text = node.value.replace("\x00", "")
